@@ -72,6 +72,8 @@ def main():
                 print("%s undecided (%d)" % (prop, len(und) + len(floors)))
                 for rule, site, detail in und[:2]:
                     print("     %s @%s: %s" % (rule, site, detail))
+                for f in floors[:2]:
+                    print("     floor: %s (need %s, got %s)" % (f[0], f[1], f[2]))
         print("FIRED:", " ".join(fired) or "none")
     finally:
         shutil.rmtree(tmp, ignore_errors=True)
